@@ -326,7 +326,9 @@ def step(cx, w, r0, s, op, k):
         a = s.v[y]; b = s.v[z] if kind == "v" else int(z)
         if f == "add": v = a + b
         elif f == "sub": v = a - b
-        elif f == "mul": v = a * b
+        elif f == "mul":
+            if a.bit_length() + b.bit_length() > 4096: return []      # sample dropped
+            v = a * b
         elif f == "sdiv":
             if b == 0: return []
             v = tdiv(a, b)
